@@ -1036,10 +1036,31 @@ func r16_5(c *Ctx) {
 			_, ok := isStaticCall(v, "(net/http.Header).Get")
 			return ok
 		}
+		var emptyTestOn func(p absPath, wantEmpty bool) bool
 		absentOn := func(p absPath) bool {
 			if pathEstablishes(p.St, factInt(isLenHdr, 0, 0, 0)) {
 				return true
 			}
+			if emptyTestOn(p, true) {
+				return true
+			}
+			// ... or NewID rejected the value (an invalid ID leaves the session's ID unset)
+			for e := range p.St.Edges {
+				if len(e.From.Instrs) == 0 {
+					continue
+				}
+				if ifi, isIf := e.From.Instrs[len(e.From.Instrs)-1].(*ssa.If); isIf {
+					if whenNil, ok := nilEdge(ifi, func(v ssa.Value) bool {
+						x, ok := p.St.resolve(v).(*ssa.Extract)
+						return ok && x.Index == 1 && x.Tuple == ssa.Value(nid)
+					}); ok && e.Idx != whenNil {
+						return true
+					}
+				}
+			}
+			return false
+		}
+		emptyTestOn = func(p absPath, wantEmpty bool) bool {
 			for e := range p.St.Edges {
 				if len(e.From.Instrs) == 0 {
 					continue
@@ -1057,7 +1078,7 @@ func r16_5(c *Ctx) {
 					x, y = y, x
 				}
 				if k, isK := constString(y); isK && k == "" && isHdrValue(p.St.resolve(x)) {
-					if (cnd.Op == token.EQL && e.Idx == cnd.succWhen(true)) || (cnd.Op == token.NEQ && e.Idx == cnd.succWhen(false)) {
+					if (cnd.Op == token.EQL && e.Idx == cnd.succWhen(wantEmpty)) || (cnd.Op == token.NEQ && e.Idx == cnd.succWhen(!wantEmpty)) {
 						return true
 					}
 				}
@@ -1068,7 +1089,7 @@ func r16_5(c *Ctx) {
 			e, ok := v.(*ssa.Extract)
 			return ok && e.Tuple == ssa.Value(nid)
 		}
-		dropped, undecidedWhy := "", ""
+		dropped, undecidedWhy, parsedEmpty := "", "", ""
 		// decide(f, valueOf): on every path of f the value is NewID's result, or the path found the header
 		// absent/empty; a value produced by an inlined helper is decided inside the helper
 		var decide func(f *ssa.Function, valueOf func(p absPath) (ssa.Value, bool), depth int)
@@ -1085,6 +1106,9 @@ func r16_5(c *Ctx) {
 				}
 				v = p.St.resolve(v)
 				if isParsed(v) {
+					if !emptyTestOn(p, false) {
+						parsedEmpty = P.ipos(p.Ret)
+					}
 					continue
 				}
 				if a, ok := loadedFrom(v); ok {
@@ -1097,6 +1121,9 @@ func r16_5(c *Ctx) {
 						}
 					}
 					if seen && fromParse {
+						if !emptyTestOn(p, false) {
+							parsedEmpty = P.ipos(p.Ret)
+						}
 						continue
 					}
 				}
@@ -1134,6 +1161,7 @@ func r16_5(c *Ctx) {
 			c.undecided(name+":used-when-present", P.pos(fn.Pos()), undecidedWhy)
 		} else {
 			c.check(dropped == "", name+":used-when-present", P.pos(fn.Pos()), "the session gets the unset ID only where the header was found absent or empty", "a request that carries a non-empty Last-Event-Id can be given the unset ID (path to "+dropped+" without an absent/empty test): the client's resume position is ignored")
+			c.check(parsedEmpty == "", name+":unset-when-empty", P.pos(fn.Pos()), "the session gets a parsed ID only where the header value was found non-empty", "an empty Last-Event-Id header can reach NewID (path to "+parsedEmpty+" without a non-empty test): the session then carries the set, empty ID instead of the unset one, which replayers look up as if it had been issued")
 		}
 	}
 
@@ -1216,6 +1244,8 @@ func r16_6(c *Ctx) {
 	if order {
 		fe, f, u := tas[idx["FlushError"]-1], tas[idx["Flush"]-1], tas[idx["Unwrap"]-1]
 		order = instrDominates(fe, f) && instrDominates(f, u) && len(loopsContaining(fn, u.Block())) == 1
+		// all three tests are made in the loop, i.e. on every unwrapped writer, not only on the outermost one
+		order = order && len(loopsContaining(fn, fe.Block())) == 1 && len(loopsContaining(fn, f.Block())) == 1
 	}
 	// the Unwrap case always goes round the loop again with the unwrapped writer
 	if order {
@@ -1859,6 +1889,19 @@ func r20_4(c *Ctx) {
 	if n == 0 {
 		c.bad(fnLabel(fn)+":need-more-data", P.pos(fn.Pos()), "splitFunc never requests more data")
 	}
+	// bytes leave the buffer only inside a token (or at EOF): what is released without a token is not
+	// counted against the scanner's buffer limit, so a stream of blank lines would be read without bound
+	for i, ret := range returnsOf(fn) {
+		if len(ret.Results) != 3 || !isNilConst(ret.Results[1]) || !isNilConst(ret.Results[2]) {
+			continue
+		}
+		if k, isK := constInt(ret.Results[0]); isK && k == 0 {
+			continue
+		}
+		atEnd := factGuards(fn, ret.Block(), factBool(func(v ssa.Value) bool { return v == ssa.Value(atEOF) }, true))
+		c.check(atEnd, fnLabel(fn)+":no-advance-without-token#"+itoa(i), P.ipos(ret), "input is consumed without a token only at EOF",
+			"splitFunc consumes input without returning a token while more input may follow: those bytes are never counted against the maximum event size, so a stream of blank lines is read without bound and ErrTooLong is never reported")
+	}
 }
 
 // isTopicsDefaulter: f(initial []string) returns `initial` exactly on paths where len(initial) >= 1
@@ -1956,6 +1999,8 @@ func init() {
 	add("C03", "R04.3 is claimed here too: the subscriber is registered with the topics it asked for (its subscription is stored as received), which is what \"never to any other subscriber\" is judged against.", "R04.3")
 	add("C17", "R03.6 is claimed here too: \"that Publish returns [the Put error]\" rests on Publish returning what arrives on its reply channel.", "R03.6")
 	add("C05", "R06.1 is claimed here too: a subscriber's channel closed twice panics Joe's goroutine and with it the server process.", "R06.1")
+	add("C16", "R15.2 is claimed here too: Session.Send returns what Message.WriteTo returns, so \"the first write error is returned to the caller\" rests on WriteTo stopping at, and returning, the first failing write.", "R15.2")
+	add("C17", "R08.1/R09.6 are claimed here too: a Put that fails must not have stored anything; an entry without a message makes the next Replay panic, which disables the replayer for every later subscriber although only one publisher's message was at fault.", "R08.1", "R09.6")
 	add("C20", "R11.2 is claimed here too: after ErrTooLong the attempt ends (and is retried from a fresh request); re-reading the half-consumed body delivers a truncated event.", "R11.2")
 	for _, id := range []string{"C03", "C04", "C05", "C06", "C17"} {
 		add(id, "R03.10 no variable that lives across iterations of Joe's loop (other than the replayer variable) flows into a Send, a replayer call, a reply to Subscribe/Publish, the subscribers map or a branch of a later request (a hoisted `err` makes a later subscriber inherit an earlier one's replay error; a reused topics slice rewrites the topics of messages the replayer already stores).", "R03.10")
